@@ -163,6 +163,10 @@ func runDutyDB(t *testing.T, rt *rapid.T, k valgen.Kind, seed int64) (bool, stri
 		await = func() (any, error) { return db.AwaitSyncContribution(ctx, slot, sub, r) }
 	}
 	duty := core.Duty{Slot: slot, Type: k.Duty}
+	pristineCopy, err := v.Clone()
+	if err != nil {
+		return false, "clone"
+	}
 	if err := db.Store(ctx, duty, core.UnsignedDataSet{pk(1): v}); err != nil {
 		return false, "store: " + firstWords(err)
 	}
@@ -187,6 +191,22 @@ func runDutyDB(t *testing.T, rt *rapid.T, k valgen.Kind, seed int64) (bool, stri
 	// (3) two readers
 	r3, _ := await()
 	mustDisjoint(rt, "dutydb "+k.Name+": two Await results", r2, r3)
+	// (4) the same datum is stored again (every node stores what consensus decided, possibly twice):
+	// mutating that second argument must not show either
+	again, err := pristineCopy.Clone()
+	if err != nil {
+		rt.Fatalf("HARNESS-ERROR: clone: %v", err)
+	}
+	if err := db.Store(ctx, duty, core.UnsignedDataSet{pk(1): again}); err != nil {
+		rt.Fatalf("dutydb %s: storing the identical datum again failed: %v", k.Name, err)
+	}
+	valgen.Scribble(&again)
+	r4, err := await()
+	if err != nil {
+		rt.Fatalf("dutydb %s: Await failed after an identical re-store: %v", k.Name, err)
+	}
+	mustSame(rt, "dutydb "+k.Name+": Await after an identical re-store whose argument was then mutated", pristine, r4)
+	mustDisjoint(rt, "dutydb "+k.Name+": re-stored argument and Await result", again, r4)
 	return refs > 0, ""
 }
 
@@ -238,6 +258,8 @@ func runParSigDB(t *testing.T, rt *rapid.T, k valgen.Kind, seed int64) (bool, st
 	if err != nil {
 		return false, "clone"
 	}
+	c2, _ := v.Clone()
+	c3, _ := v.Clone()
 	p1 := core.ParSignedData{SignedData: v, ShareIdx: 1}
 	pristine := render(p1)
 	if err := db.StoreInternal(ctx, duty, core.ParSignedDataSet{pk(1): p1}); err != nil {
@@ -281,6 +303,18 @@ func runParSigDB(t *testing.T, rt *rapid.T, k valgen.Kind, seed int64) (bool, st
 		}
 	}
 	mustSame(rt, "parsigdb "+k.Name+": threshold subscriber 2 after subscriber 1 mutated its argument", snap2, sub2[0].set)
+	// the last subscriber mutates what it got as well: the store's own copy must be unaffected, which
+	// shows when the very same partials are delivered again (duplicates, not mismatches)
+	for _, ds := range sub2[0].set {
+		for i := range ds {
+			valgen.Scribble(&ds[i])
+		}
+	}
+	for share, orig := range map[int]core.SignedData{1: c2, 2: c3} {
+		if err := db.StoreExternal(ctx, duty, core.ParSignedDataSet{pk(1): core.ParSignedData{SignedData: orig, ShareIdx: share}}); err != nil {
+			rt.Fatalf("ISOLATION: parsigdb %s: after the subscribers mutated their arguments the stored partial of share %d no longer equals what was stored (re-delivery rejected: %v)", k.Name, share, err)
+		}
+	}
 	return refs > 0, ""
 }
 
